@@ -27,12 +27,16 @@ def confirm(src, sid, pid):
         assert "229 passed; 0 failed" in out, "suite does not pass with patch: " + out
         os.makedirs(wt + "/tests", exist_ok=True)
         shutil.copy(os.path.join(src, "demo.rs"), wt + "/tests/demo.rs")
-        rc1, out1 = sh("cargo test --offline --test demo 2>&1 | tail -15", cwd=wt)
-        rcx, outx = sh("cargo test --offline --test demo 2>&1 | grep -E 'test result'", cwd=wt)
+        # a demonstration may need the crate-private entry points behind the hooks cfg (SEED_DEMO_CFG=1)
+        demo = "cargo test --offline --test demo"
+        if os.environ.get("SEED_DEMO_CFG"):
+            demo = "RUSTFLAGS='--cfg rateslib_verif --check-cfg cfg(rateslib_verif)' CARGO_TARGET_DIR=target-cfg " + demo
+        rc1, out1 = sh(demo + " 2>&1 | tail -15", cwd=wt)
+        rcx, outx = sh(demo + " 2>&1 | grep -E 'test result'", cwd=wt)
         res["demo_with_patch"] = outx.strip()
         assert "FAILED" in outx or "failed" in outx and "0 failed" not in outx, "demo does not fail with patch: " + out1
         sh("git checkout -- rust Cargo.toml", cwd=wt)
-        rc2, out2 = sh("cargo test --offline --test demo 2>&1 | grep -E 'test result'", cwd=wt)
+        rc2, out2 = sh(demo + " 2>&1 | grep -E 'test result'", cwd=wt)
         res["demo_without_patch"] = out2.strip()
         assert "0 failed" in out2 and "ok" in out2, "demo does not pass without patch: " + out2
         dst = os.path.join(ROOT, "seeded", sid)
